@@ -914,7 +914,7 @@ fn write_evidence(
         "assumptions": [
             "sampling: a clean batch is evidence, not proof; sizes bounded (mostly len <= 12 and <= 4 pulling threads; 4 % of the runs 31-129 elements, 0.4 % 257-2141; thorough tier up to 24 elements and 6 threads)",
             "values are sequentially consistent interleavings plus bounded staleness of relaxed/acquire loads (F8); happens-before is computed from the orderings the crate passes to the shim",
-            "wrapped iterators are honest about an exact size hint (and fused, except in C05)",
+            "wrapped iterators are finite probes (C09 also uses one that never ends); probes that are not fused and exact size hints that under- or over-report are generated deliberately in the checks listed in DESIGN.md section 13; other misbehaviour of a wrapped iterator is not generated",
             "synchronisation that bypasses the shimmed atomics is invisible to the simulator"
         ],
         "wall_s": wall,
